@@ -186,11 +186,12 @@ satisfies the production invariant, is in sync with its image, its store is the 
 writes applied; every prefix image of these writes (a crash during recovery) satisfies the disk invariant again
 and leaves every committed block alone; when a state was saved, the node holds it and its chain height is the
 state's height (raised if the image was in the window). -/
-theorem start_of_dinv {c : Cfg} {d : Store} (hd : DInv c d) :
+theorem start_of_dinv' {c : Cfg} {d : Store} (hd : DInv c d) :
     ∃ n ws, start c d = .ok (n, ws) ∧ Live c n ∧ Synced c n ∧ WmOK n.store ∧ n.store = d.applyAll ws ∧
       (∀ k, DInv c (d.applyPrefix k ws)) ∧ (∀ k, Adv c d (d.applyPrefix k ws)) ∧
       (∀ s, d.state = some s → n.lastState = s ∧ n.store.height = s.lastHeight ∧
-        ∃ w1 w2, ws = resumeWrites c d s w1 w2) := by
+        ∃ w1 w2, ws = resumeWrites c d s w1 w2) ∧
+      (∀ h b, SW.saveBlock h b ∈ ws → h = c.initialHeight ∧ b = genesisBlock c) := by
   obtain ⟨⟨w1, hw1⟩, ⟨w2, hw2⟩⟩ := hd.wm
   cases hst : d.state with
   | none =>
@@ -223,7 +224,7 @@ theorem start_of_dinv {c : Cfg} {d : Store} (hd : DInv c d) :
       simp only
       rw [← hstore]
       simp [genesisState, restartWrites, wmWrite, wmRaise, hd2]
-    refine ⟨_, _, hstart, ?_, Or.inr ⟨by rw [p1, hst], rfl⟩, ⟨⟨x1, hx1⟩, ⟨x2, hx2⟩⟩, rfl, ?_, ?_, ?_⟩
+    refine ⟨_, _, hstart, ?_, Or.inr ⟨by rw [p1, hst], rfl⟩, ⟨⟨x1, hx1⟩, ⟨x2, hx2⟩⟩, rfl, ?_, ?_, ?_, ?_⟩
     · exact live_genesis hd.ihPos hh hg (fun h hgt => by
         show (d.applyAll (restartWrites c d w1 w2)).getBlock h = none
         rw [p4 h (by omega)]; exact habove h hgt) rfl
@@ -238,6 +239,11 @@ theorem start_of_dinv {c : Cfg} {d : Store} (hd : DInv c d) :
       obtain ⟨_, q2, q3, q4⟩ := genWrites_facts hlow hk
       exact ⟨q2, by unfold Store.applyPrefix; omega, fun h hh => q4 h (by omega)⟩
     · intro s hs; cases hs
+    · intro h b hm
+      have hgw := hgen _ hm
+      cases hgw with
+      | genesis => exact ⟨rfl, rfl⟩
+      | wm w hw => obtain ⟨k, x, hkx⟩ := hw; cases hkx
   | some s =>
     obtain ⟨hge, hle, hl⟩ := hd.withState s hst
     have hdr := dinv_raised hd hst
@@ -272,7 +278,7 @@ theorem start_of_dinv {c : Cfg} {d : Store} (hd : DInv c d) :
       rw [← hstore]
       simp [resumeWrites, wmWrite, wmRaise]
     rw [hstore'] at f1 f2 f3 f4
-    refine ⟨_, _, hstart, ?_, Or.inl ⟨by rw [f4, r3, hst], hge⟩, f1.wm, rfl, ?_, ?_, ?_⟩
+    refine ⟨_, _, hstart, ?_, Or.inl ⟨by rw [f4, r3, hst], hge⟩, f1.wm, rfl, ?_, ?_, ?_, ?_⟩
     · exact hl.of_same f2 f3 rfl
     · intro k
       unfold Store.applyPrefix resumeWrites
@@ -300,5 +306,23 @@ theorem start_of_dinv {c : Cfg} {d : Store} (hd : DInv c d) :
       have : s = s' := by simpa using hs'
       subst this
       exact ⟨rfl, by show (d.applyAll (resumeWrites c d s w1 w2)).height = _; rw [f2, hrh], w1, w2, rfl⟩
+    · intro h b hm
+      exfalso
+      simp only [resumeWrites, List.mem_append] at hm
+      rcases hm with (hm | hm) | hm
+      · unfold setHeightW at hm
+        split at hm
+        · simp at hm
+        · cases hm
+      · obtain ⟨k, x, hkx⟩ := wmWrite_isWm _ _ _ _ hm; cases hkx
+      · obtain ⟨k, x, hkx⟩ := wmWrite_isWm _ _ _ _ hm; cases hkx
+
+theorem start_of_dinv {c : Cfg} {d : Store} (hd : DInv c d) :
+    ∃ n ws, start c d = .ok (n, ws) ∧ Live c n ∧ Synced c n ∧ WmOK n.store ∧ n.store = d.applyAll ws ∧
+      (∀ k, DInv c (d.applyPrefix k ws)) ∧ (∀ k, Adv c d (d.applyPrefix k ws)) ∧
+      (∀ s, d.state = some s → n.lastState = s ∧ n.store.height = s.lastHeight ∧
+        ∃ w1 w2, ws = resumeWrites c d s w1 w2) := by
+  obtain ⟨n, ws, a1, a2, a3, a4, a5, a6, a7, a8, _⟩ := start_of_dinv' hd
+  exact ⟨n, ws, a1, a2, a3, a4, a5, a6, a7, a8⟩
 
 end Producer
